@@ -12,15 +12,15 @@ def one(args):
     path, prop = args
     from ocv.__main__ import analyse
     from ocv.core import VIOLATION, UNKNOWN
-    from ocv.patching import patched_sources
-    src = patched_sources(path)
+    from ocv.patching import stored_sources, added
+    src = stored_sources(path)
     if src is None:
         return path, prop, [("nopatch", "", "", "")]
     try:
         mod, ctx = analyse(prop, "/repo", "quick", sources=src)
     except Exception as ex:
         return path, prop, [("CRASH", type(ex).__name__, str(ex)[:200], "")]
-    return path, prop, [(r.status, r.rule, r.construct[:140], r.msg[:200]) for r in ctx.results if r.status in (VIOLATION, UNKNOWN)]
+    return path, prop, [(r.status, r.rule, r.construct[:140], r.msg[:200]) for r in added(prop, ctx.results) if r.status in (VIOLATION, UNKNOWN)]
 
 
 if __name__ == "__main__":
